@@ -1,11 +1,11 @@
 """C06 - LIMIT gates."""
 from common import *
 OBLIGATIONS = [
-    ob('C06.gate.dir', GATES + 'c06_gate_dir', 'for all bool buffered, u32 limit, found: the directory loop stops early iff !buffered and limit > 0 and found >= limit', units=['gates']),
-    ob('C06.gate.archive', GATES + 'c06_gate_archive', 'the archive-member loop stops early under exactly the same condition (never when the output is buffered for ORDER BY / aggregates, never for limit 0)', units=['gates']),
+    ob('C06.gate.dir', 'verif_frag::gate_exit_dir::c06_gate', 'for all bool buffered, u32 limit, found: the directory loop stops early iff !buffered and limit > 0 and found >= limit', units=['gate_exit_dir']),
+    ob('C06.gate.archive', 'verif_frag::gate_exit_archive::c06_gate', 'the archive-member loop stops early under exactly the same condition (never when the output is buffered for ORDER BY / aggregates, never for limit 0)', units=['gate_exit_archive']),
 ]
 OBLIGATIONS.append(dict(id='C06.limit.parse', engine='V', verus_fn='Parser::parse_limit', label='C06.limit.parse', complete=True, bound=None, units=[], harness='verus:Parser::parse_limit', tier='quick',
     desc='for every token vector: no LIMIT token -> Ok(0) and the cursor is unchanged; LIMIT followed by a word -> the u32 that word denotes, or Err when it denotes none; LIMIT followed by anything else -> Err'))
-CANARIES = [dict(harness=GATES + 'canary_gates_must_fail', units=['gates'])]
+CANARIES = [dict(harness='verif_frag::gate_exit_dir::canary_must_fail', units=['gate_exit_dir']), dict(harness='verif_frag::gate_exit_archive::canary_must_fail', units=['gate_exit_archive'])]
 ASSUMPTIONS = ['self.found counts accepted rows (check_file, unverified)', 'is_buffered() is true exactly for ordered or aggregated queries (unverified)']
 NOT_COVERED = ['TopN::insert for arbitrary histories (BTreeMap: beyond CBMC and Verus here)', 'found accounting in check_file', 'implicit limit 1']
